@@ -23,6 +23,25 @@ var endCauses = []string{"close", "fin", "rst", "srvcancel"}
 
 func genC15(r *simrt.RNG, tier string, variant int) Plan {
 	p := Plan{Family: "faulty", Params: map[string]int64{}}
+	floodP := 0.0012 // one such run costs as much as a thousand ordinary ones
+	if tier == "thorough" {
+		floodP = 0.004
+	}
+	if r.Bool(floodP) {
+		// a notification handler subscribed to a stream of its client and fell
+		// thousands of values behind - beyond any plausible internal bound - when the
+		// connection ends: its context is cancelled and nothing is retained all the same
+		p.Family = "revflood"
+		nv := 11000
+		p.Servers = []ServerPlan{{Addr: "srv0:1", PingNs: -1, Reverse: true}}
+		p.Clients = []ClientPlan{{Name: "A", Kind: "ws", Server: 0, Reverse: true, NoReconnect: true}}
+		p.Ops = []Op{{Kind: "notifyrevflood", Client: 0, Tok: 1, N: nv}, {Kind: "call", Client: 0, Tok: 2, Size: 100}}
+		p.Faults = []Fault{{Kind: Pick(r, []string{"close", "fin", "rst"}), Client: 0, Pipe: 0, Dir: "c2s", Frame: -1}}
+		p.Params["max_steps"] = int64(nv)*90 + 100000
+		p.Params["coarse"] = 1
+		p.Params["react_ms"] = 0
+		return p
+	}
 	p.Servers = []ServerPlan{{Addr: "srv0:1", PingNs: Pick(r, []int64{0, -1, int64(1e9)}), Reverse: r.Bool(0.5)}}
 	nc := 1 + r.Intn(3)
 	for i := 0; i < nc; i++ {
@@ -177,6 +196,11 @@ func runC15(e *Env, p *Plan) {
 			continue
 		}
 		t := w.Register(op)
+		if op.Kind == "notifyrevflood" {
+			e.Probe("server-side-subscriber-thousands-of-values-behind")
+			w.Start(op, nil)
+			continue
+		}
 		if op.Kind != "sub" || op.Hold {
 			g := make(chan struct{})
 			gates = append(gates, g)
